@@ -27,18 +27,44 @@ Theorem c14_at_most_one_and_equal :
 Proof. exact obs_equal_first_report. Qed.
 Print Assumptions c14_at_most_one_and_equal.
 
-(* PARTIAL. Full statement planned in DESIGN §6: "observed levels = exactly those selected by the
-   policy among the delivered, non-ignored reports". Proved here: every observed level was delivered
-   (previous theorem), and under searcher_data = all | rungs_and_last the latest delivered level of
-   every trial is in the data. NOT proved: for 'rungs' that no non-rung level other than the final
-   result of a completed trial is present, for 'rungs_and_last' that superseded non-rung levels are
-   gone and reached rung levels stay (checked on every implementation state by the driver). *)
-Theorem c14_levels_by_policy_partial :
+(* Levels by policy — exactly what the policy selects among the delivered, non-ignored reports
+   ([delivered h t r] = trial t reported level r in history h; re-reports of old levels by a run
+   restarted from scratch are ignored by the scheduler and change nothing):
+   * every policy: only delivered levels are observed; a trial unknown to the scheduler has none; every rung
+     level at which the scheduler registered the trial in a rung ([in_rungs], the "reached" rung levels) is a
+     rung level, was delivered and STAYS observed;
+   * all: observed = delivered;
+   * rungs: every delivered level that is a rung level or max_t is observed, and every observed level is a rung
+     level or max_t — or the level of the final result of a trial that is no longer running (upstream
+     HyperbandScheduler.on_trial_complete passes the last result with update=True when it lies above
+     largest_update_resource: the completion level is in the data even if it is not a rung level);
+   * rungs_and_last: observed = the rung levels at which the trial is registered in a rung (bracket-aware: the
+     milestones it reached) plus the latest delivered level (which includes max_t once reached). *)
+Theorem c14_levels_by_policy :
+  forall cfg h st, wf_config cfg = true -> legal_hist cfg init h -> run cfg init h = Ok st ->
+    (forall t, find t (trials st) = None -> forall r, is_labeled (srch st) t r = false) /\
+    forall t rec, find t (trials st) = Some rec ->
+      (forall r, is_labeled (srch st) t r = true -> delivered h t r) /\
+      (forall L p, In (L, p) (in_rungs rec) -> In L (rung_levels cfg) /\ delivered h t L /\ is_labeled (srch st) t L = true) /\
+      match pol cfg with
+      | AllData => forall r, is_labeled (srch st) t r = true <-> delivered h t r
+      | Rungs => forall r,
+          (delivered h t r -> rungs_or_max cfg r -> is_labeled (srch st) t r = true) /\
+          (is_labeled (srch st) t r = true ->
+             rungs_or_max cfg r \/ (dec rec <> CONTINUE /\ exists v, reported rec = Some (r, v)))
+      | RungsAndLast => forall r,
+          is_labeled (srch st) t r = true <-> (in_rung rec r = true \/ exists v, reported rec = Some (r, v))
+      end.
+Proof. exact levels_by_policy. Qed.
+Print Assumptions c14_levels_by_policy.
+
+(* the latest delivered level carries the value of its first report *)
+Theorem c14_latest_value :
   forall cfg h st, wf_config cfg = true -> legal_hist cfg init h -> run cfg init h = Ok st ->
     forall t rec r v, find t (trials st) = Some rec -> reported rec = Some (r, v) ->
       lookup_rep (t, r) (first_reports h []) = Some v /\ (pol cfg <> Rungs -> is_labeled (srch st) t r = true).
 Proof. exact latest_present. Qed.
-Print Assumptions c14_levels_by_policy_partial.
+Print Assumptions c14_latest_value.
 
 (* Every pending (trial, level): listed once, the trial is running, the level is not observed and
    lies above every observed level of the trial. *)
